@@ -291,3 +291,15 @@ reg("C15",
             "thorough": {"connections": 60000, "overlapping_creations": 40000, "distinct_nontrivial": 5}},
     rule="one evaluation = one multi-threaded run; non-trivial = at least two threads were inside socket creation at the same time (counted by the workload around its own calls); distinct = distinct thread counts",
     assumptions=["TSan suppressions: called_from_lib for libcrypto.so.3, libssl.so.3, libcares.so.2 (uninstrumented)"])
+
+reg("C20",
+    title="xcmrelay is transparent",
+    technique="end-to-end delivery oracle (unique message/byte contents, sender ledgers) across the real xcmrelay process (ASan build) for every leg pair of equal service type; close-order oracle; relay liveness (waitpid, serves again); LD_PRELOAD shim in the relay producing partial-then-refused writes",
+    level_text="The relay binary built from the working tree runs as a child process between 1-8 harness clients and a harness server on every pair of legs of equal service (ux, uxf, tcp, tls, utls; btcp, btls). Both ends of every relayed connection send unique-content messages (1 byte to 65535 bytes) at the same time, in mixed, burst-then-close and stalled-reader patterns; then one side finishes and closes and the other must receive everything that side had accepted, then the orderly close; deliveries in both directions are checked against the senders' ledgers (order, exactly once, bytes). The relay must still run afterwards and relay a fresh connection. In half of the cases the relay runs with an LD_PRELOAD shim that accepts TCP writes in part and refuses the next one, as a full kernel buffer does in the middle of a frame. Sanitizer reports of the relay process are collected from its stderr.",
+    level_note="Timing of the two sides is what the scheduler and the kernel produce; the relay's internal event order is not controlled.",
+    harness=STATES + ["c20.c"], preload=["vpreload.c"],
+    stages=[dict(variant="asan", cases={"quick": 480, "thorough": 12000}, timeout={"quick": 900, "thorough": 3400})],
+    floors={"quick": {"relayed_connections": 600, "close_order_verified": 400, "messages_relayed": 15000, "stalled_reader_cases": 80, "relay_served_again": 300, "distinct_nontrivial": 150},
+            "thorough": {"relayed_connections": 15000, "close_order_verified": 10000, "distinct_nontrivial": 400}},
+    rule="one evaluation = one relay process with 1-8 relayed connections; distinct = distinct (leg pair, single/multiple connections, pattern, shortened writes, closing side) signatures",
+    assumptions=["tcp.user_timeout is left at its default in the relay; stalls are kept below one second"])
